@@ -11,9 +11,11 @@ import (
 	"runtime"
 	"runtime/debug"
 	"runtime/metrics"
+	"strconv"
 	"strings"
 	"sync"
 	"sync/atomic"
+	"syscall"
 	"time"
 )
 
@@ -28,9 +30,10 @@ import (
 const childEnv = "VERIF_C12_CHILD"
 
 const (
-	childMaxStack  = 256 << 20  // goroutine stack cap in the child (Go default 1 GB): an overflow is fast
-	childMemLimit  = 1536 << 20 // watchdog: total Go memory above this = unbounded allocation
-	probeTimeLimit = 10 * time.Second
+	childMaxStack  = 256 << 20        // goroutine stack cap in the child (Go default 1 GB): an overflow is fast
+	childMemLimit  = 4 << 30          // watchdog: total Go memory above this = unbounded allocation
+	probeTimeLimit = 40 * time.Second // CPU time of one probe
+	probeWallLimit = 3 * time.Minute
 	exitOOM        = 97
 	exitHang       = 98
 	exitAfterPanic = 96
@@ -60,13 +63,34 @@ type ProbeResult struct {
 }
 
 var probeStart atomic.Int64 // unix nanos of the running probe, 0 when idle
+var probeCPU atomic.Int64   // process CPU time (ns) when the running probe started
+
+// cpuTime: user+system time of the process. The hang test uses CPU time, so that a loaded machine
+// does not turn a slow probe into a "hang"; the wall-clock limit is only for executions that block.
+func cpuTime() time.Duration {
+	var ru syscall.Rusage
+	if syscall.Getrusage(syscall.RUSAGE_SELF, &ru) != nil {
+		return 0
+	}
+	return time.Duration(ru.Utime.Nano() + ru.Stime.Nano())
+}
 
 func init() {
 	if os.Getenv(childEnv) == "" {
 		return
 	}
+	if os.Getenv(childEnv) == "corr" {
+		debug.SetMaxStack(64 << 20)
+		corrChildMain()
+	}
 	debug.SetMaxStack(childMaxStack)
-	debug.SetMemoryLimit(1024 << 20)
+	if mb, _ := strconv.Atoi(os.Getenv("VERIF_C12_STACK_MB")); mb > 0 {
+		debug.SetMaxStack(mb << 20)
+	}
+	debug.SetMemoryLimit(3 << 30)
+	if os.Getenv("VERIF_C12_GC") == "" {
+		debug.SetGCPercent(-1)
+	} // collect only near the limit: every collection scans the (possibly huge) stack
 	var job Job
 	if err := json.NewDecoder(bufio.NewReaderSize(os.Stdin, 1<<20)).Decode(&job); err != nil {
 		fmt.Fprintln(os.Stderr, "child: bad input:", err)
@@ -80,7 +104,13 @@ func init() {
 		os.Exit(4)
 	}
 	for i, p := range job.Probes {
+		if p.StackMB > 0 { // witnesses of unbounded recursion: a small cap shows the same thing sooner
+			debug.SetMaxStack(p.StackMB << 20)
+		} else {
+			debug.SetMaxStack(childMaxStack)
+		}
 		probeStart.Store(time.Now().UnixNano())
+		probeCPU.Store(int64(cpuTime()))
 		r := env.runProbe(p)
 		probeStart.Store(0)
 		r.I = i
@@ -102,9 +132,19 @@ func watchdog() {
 			fmt.Fprintln(os.Stderr, "WATCHDOG-OOM: memory in use above", childMemLimit>>20, "MiB")
 			os.Exit(exitOOM)
 		}
-		if t := probeStart.Load(); t != 0 && time.Since(time.Unix(0, t)) > probeTimeLimit {
-			fmt.Fprintln(os.Stderr, "WATCHDOG-HANG: probe running longer than", probeTimeLimit)
-			os.Exit(exitHang)
+		limit := probeTimeLimit
+		if sec, _ := strconv.Atoi(os.Getenv("VERIF_C12_TLIMIT")); sec > 0 {
+			limit = time.Duration(sec) * time.Second
+		}
+		if t := probeStart.Load(); t != 0 {
+			if used := cpuTime() - time.Duration(probeCPU.Load()); used > limit {
+				fmt.Fprintln(os.Stderr, "WATCHDOG-HANG: probe used more than", limit, "of CPU time")
+				os.Exit(exitHang)
+			}
+			if time.Since(time.Unix(0, t)) > probeWallLimit {
+				fmt.Fprintln(os.Stderr, "WATCHDOG-HANG: probe blocked for more than", probeWallLimit)
+				os.Exit(exitHang)
+			}
 		}
 	}
 }
